@@ -99,6 +99,9 @@ def run(tier="quick", seed=0, replay=None):
         print(open(replay).read())
         return 1
     core.lean_stage(chk, "C16", extra_props=["C16a"])
+    from harness import cover
+    _cv = cover.Cover(['ixai/explainer/base.py'])
+    _cv.__enter__()
     quick = tier == "quick"
     reqs, impls = [], []
     ids = explain.Ids()
@@ -181,6 +184,8 @@ def run(tier="quick", seed=0, replay=None):
                 chk.tie_failure(f"correspondence:{kind}", f"{desc}: impl={impl} model={ans}")
     else:
         chk.tie_failure("driver", "model driver not built")
+    _cv.__exit__(None, None, None)
+    cover.gate(chk, _cv, only_functions=['BaseIncrementalFeatureImportance._normalize_importance_values', 'BaseIncrementalFeatureImportance.get_confidence_bound', 'BaseIncrementalFeatureImportance.get_normalized_importance_values'])
     chk.exhaustive = False
     chk.extra["explanation"] = ("normalize_* and conf_bound_* are theorems about the model (ordered field; genuine square root); variance_nonneg holds "
                                 "in every reachable state (C16a). Tied to base.py by exact comparison of normalisation and binary64 comparison of the "
